@@ -847,8 +847,8 @@ func runE2E(r *lib.Rng, base string, idx int, steps int, plzDir string) *e2eHist
 	inCfgPass := func(v string) bool { return contains(spec.PassEnv, v) }
 
 	names := []string{"CFG_A", "CFG_B", "CFG_U", "SECRET_S", "T_A", "T_B", "USER", "LANG", "HOME", "TERM", "LEAK_1", "LEAK_2", "EDITOR", "XDG_CONFIG_HOME"}
-	cl := map[string]string{"PATH": "/usr/local/bin:/usr/bin:/bin"}
-	tokenOwner := map[string]string{} // token -> variable name, over the whole history
+	cl := map[string]string{"PATH": "/usr/local/bin:/usr/bin:/bin", "GOMAXPROCS": "2"} // GOMAXPROCS: an unlisted variable that also keeps plz cheap
+	tokenOwner := map[string]string{}                                                  // token -> variable name, over the whole history
 	setVar := func(v string) {
 		t := token()
 		tokenOwner[t] = v
